@@ -496,6 +496,55 @@ impl Mul10 for u128 {
     }
 }
 
+/// Verification hook (compiled only with `--cfg substrate_fixed_verif`): exposes the private
+/// digit-generation kernels so that the checks under /verif can drive them without `core::fmt`.
+#[cfg(substrate_fixed_verif)]
+pub mod verif_display_kernels {
+    use super::{Buffer, FmtHelper, Mul10};
+    use core::cmp::Ordering;
+
+    macro_rules! kernels {
+        ($mul10:ident, $frac_dec:ident, $int_dec:ident, $U:ty) => {
+            /// `x * 10` as (low word, carried-out digit)
+            pub fn $mul10(mut x: $U) -> ($U, u8) {
+                let digit = x.mul10_assign();
+                (x, digit)
+            }
+            /// decimal digits of the fraction register: (digits kept, digits, remainder compared with one half)
+            pub fn $frac_dec(
+                frac: $U,
+                nbits: u32,
+                auto_prec: bool,
+                frac_digits: u32,
+            ) -> (usize, [u8; 40], Ordering) {
+                assert!(frac_digits <= 40);
+                let mut buf = Buffer::new();
+                buf.set_len(0, frac_digits);
+                let ord = frac.write_frac_dec(nbits, auto_prec, &mut buf);
+                let mut out = [0u8; 40];
+                let kept = buf.frac_digits;
+                out[..kept].copy_from_slice(buf.frac());
+                (kept, out, ord)
+            }
+            /// decimal digits of the integer part (most significant first)
+            pub fn $int_dec(int: $U, nbits: u32, int_digits: u32) -> [u8; 40] {
+                assert!(int_digits <= 40);
+                let mut buf = Buffer::new();
+                buf.set_len(int_digits, 0);
+                int.write_int_dec(nbits, &mut buf);
+                let mut out = [0u8; 40];
+                out[..int_digits as usize].copy_from_slice(buf.int());
+                out
+            }
+        };
+    }
+    kernels! { mul10_u8, frac_dec_u8, int_dec_u8, u8 }
+    kernels! { mul10_u16, frac_dec_u16, int_dec_u16, u16 }
+    kernels! { mul10_u32, frac_dec_u32, int_dec_u32, u32 }
+    kernels! { mul10_u64, frac_dec_u64, int_dec_u64, u64 }
+    kernels! { mul10_u128, frac_dec_u128, int_dec_u128, u128 }
+}
+
 #[cfg(test)]
 #[allow(clippy::cognitive_complexity, clippy::float_cmp)]
 mod tests {
